@@ -983,7 +983,7 @@ func (s *Store) Close(wait bool) (retErr error) {
 	}
 
 	vhook.Point("store.close.before_gate")
-	if err := s.snapshotCAS.BeginWithRetry("close", 10*time.Millisecond, 10*time.Second); err != nil {
+	if err := s.snapshotCAS.BeginWithRetry("close", 10*time.Second, 10*time.Millisecond); err != nil {
 		return err
 	}
 	defer s.snapshotCAS.End()
